@@ -171,6 +171,11 @@ func (e *Engine) enterLoop(fr *Frame, li *loopInfo, cur *State) *State {
 	key := e.loopKey(fr, li)
 	inv := e.invs[key]
 	if inv == nil && !isRangeLoop(li) {
+		// a loop without contract is only a problem on a path that can be taken
+		if e.pathInfeasible(cur) {
+			cur.kill()
+			return cur
+		}
 		unsup("loop %d of %s has no invariant (%s) and no unroll bound", li.ord, fnName(fr.fn), "verif_inv_"+key)
 	}
 	if inv == nil {
@@ -767,4 +772,18 @@ func (e *Engine) loopFrameCheck(fr *Frame, li *loopInfo, s *State) {
 		e.oblige(fr, tmp, fmt.Sprintf("loop-frame.loop%d", li.ord), site, False, "writes of the loop body cannot be related to its declared frame")
 		fr.spec = ss
 	}
+}
+
+// pathInfeasible asks the solver (2 s) whether the path condition is contradictory.
+func (e *Engine) pathInfeasible(st *State) bool {
+	if st.dead {
+		return true
+	}
+	hyp := st.pc.term()
+	if len(e.quantVars) > 0 && e.mentionsQuant(hyp) {
+		// quantified facts need instances chosen for a goal: use the plain query builder
+	}
+	o := &Obligation{Name: "path-feasible", Kind: "internal", hyp: hyp, goal: False}
+	v := solveReqDo("", solveReq{Query: e.buildQuery(o, nil), TimeoutMs: 2000})
+	return v.Status == "unsat"
 }
